@@ -288,6 +288,12 @@ pub fn corpus(deep: bool) -> Vec<String> {
               "forall Y exists X (p(X) <- q(Y) and X != Y)", "not exists X (p(X) -> q(X))", "exists X (not p(X) -> q(X))", "exists X (p(X) -> exists Y (q(X, Y) -> p(Y)))"] {
         out.push(t.to_string());
     }
+    // an integer variable that restricts a general one, with the indexed variants of its name taken (the fresh-name search has to move on)
+    for t in ["forall X Y I1$i I2$i (exists Z I$i (q(X, Z) and Y = I$i and I$i > I1$i + I2$i) -> p(X))", "forall Y I1$i (exists I$i (Y = I$i and I$i > I1$i) -> p(Y))", "forall Y I1$i I2$i I3$i (exists I$i (Y = I$i and I$i > I1$i + I2$i + I3$i) -> p(Y))",
+              "forall V1 (p(V1) <-> exists I1$i I2$i (q(I1$i, I2$i) and exists I$i J$i (V1 = I$i + J$i and I$i = I1$i and J$i = I2$i)))", "forall Y N1$i N2$i (exists N$i (Y = N$i and q(N1$i, N2$i) and N$i >= 0) -> p(Y))",
+              "forall X J1$i J2$i (exists J$i (X = J$i and q(J$i, J1$i)) -> q(X, J2$i))", "exists Y I1$i I2$i (exists I$i (Y = I$i and q(I1$i, I2$i) and p(I$i)))", "forall Y I2$i (exists I$i I1$i (Y = I$i and I$i > I1$i + I2$i) -> p(Y))"] {
+        out.push(t.to_string());
+    }
     // comparison chains next to plain equations that share a term with them (a chain `V = t < u` is not a definition of V)
     for t in ["exists X$i Y$i (X$i = Z and Y$i = Z < 3 and p(Y$i))", "exists X Y (X = Z and Y = Z != 1 and q(X, Y))", "exists Y$i (Y$i = Z < 1 and p(Y$i))", "forall X$i Y$i (X$i = Z and Y$i = Z <= 0 -> q(X$i, Y$i))",
               "exists X (X = Y = 1 and p(X))", "exists X$i Y$i (X$i = N$i + 1 and Y$i = N$i + 1 > 1 and q(X$i, Y$i))", "exists X Y (Y = Z < a and X = Z and q(Y, X))", "exists X Y (X = Z and Z = Y < 1 and q(X, Y))",
@@ -368,7 +374,8 @@ pub fn check(deep: bool, stats: &mut SimpStats, fails: &mut Vec<Failure>) {
     let mut inputs: Vec<(String, fol::Formula)> = Vec::new();
     for t in &corpus {
         match fol::Formula::from_str(t) {
-            Ok(f) => { if quantified_variables(&f) > 12 || exactly_evaluable(&f) || pure_small(&f) { inputs.push((t.clone(), f)); } else { stats.skipped_inexact += 1; } }
+            // every formula is simplified (termination, free variables, determinism, idempotence); truth values are compared where the evaluation is exact
+            Ok(f) => { inputs.push((t.clone(), f)); }
             Err(_) => {}
         }
     }
